@@ -89,18 +89,24 @@ Definition conn := list bytes.
    what is left of a segment stays in the kernel buffer (head of the list).
    No byte at all and the stream ends: io.EOF.  Some bytes, then the end: io.ErrUnexpectedEOF
    (tcpConn.Read wraps it: kind other). *)
-Fixpoint read_full (n : N) (got : bytes) (cs : conn) : rd (bytes * conn) :=
+Definition is_nil (c : bytes) : bool := match c with [] => true | _ :: _ => false end.
+
+(* [fresh] = no byte obtained so far in this call *)
+Fixpoint read_full (n : N) (fresh : bool) (cs : conn) : rd (bytes * conn) :=
   match cs with
-  | [] => Fail (match got with [] => EEof | _ :: _ => EOther end)
+  | [] => Fail (if fresh then EEof else EOther)
   | c :: rest =>
     if n <=? blen c
-    then Got (got ++ firstn (N.to_nat n) c, skipn (N.to_nat n) c :: rest)
-    else read_full (n - blen c) (got ++ c) rest
+    then Got (firstn (N.to_nat n) c, skipn (N.to_nat n) c :: rest)
+    else match read_full (n - blen c) (fresh && is_nil c) rest with
+         | Got (b, cs') => Got (c ++ b, cs')
+         | Fail e => Fail e
+         end
   end.
 
 (* tcpConn.Read(p), len p = n.  io.ReadFull with an empty buffer returns (0, nil) without reading. *)
 Definition conn_read (n : N) (cs : conn) : rd (bytes * conn) :=
-  if n =? 0 then Got ([], cs) else read_full n [] cs.
+  if n =? 0 then Got ([], cs) else read_full n true cs.
 
 (* the same primitive on the unsegmented stream *)
 Definition flat_read (n : N) (s : bytes) : rd (bytes * bytes) :=
